@@ -141,7 +141,7 @@ theorem lookupStage_ok (db : Db) (o : Fields) (docs out : List Val)
 theorem lookupDoc_ok (foreign : List Val) (lf ff as : String) (d r : Val)
     (h : lookupDoc foreign lf ff as d = .ok r) :
     ∃ fs q ms, d = .doc fs ∧ lookupQuery fs lf = .ok q ∧
-      findDocs (.doc [(ff, q)]) foreign = .ok ms ∧ r = .doc (dset as (.arr ms) fs) ∧
+      findDocs (.doc [(ff, q)]) foreign = .ok ms ∧ r = .doc (dset as (.arr (patchList ms)) fs) ∧
       ms.Sublist foreign ∧
       (∀ x, x ∈ ms ↔ x ∈ foreign ∧ filterApplies (patch (.doc [(ff, q)])) x = .ok true) ∧
       (∀ k, k ≠ as → ∀ gs, r = .doc gs → dget k gs = dget k fs) := by
